@@ -67,6 +67,7 @@ from tensordict.utils import (
     _getitem_batch_size,
     _infer_size_impl,
     _is_number,
+    _LOCK_ERROR,
     _maybe_correct_neg_dim,
     _parse_to,
     _renamed_inplace_method,
@@ -2194,6 +2195,8 @@ class LazyStackedTensorDict(TensorDictBase):
     def _exclude(
         self, *keys: NestedKey, inplace: bool = False, set_shared: bool = True
     ) -> LazyStackedTensorDict:
+        if inplace and self.is_locked:
+            raise RuntimeError(_LOCK_ERROR)
         tensordicts = [
             tensordict._exclude(*keys, inplace=inplace, set_shared=set_shared)
             for tensordict in self.tensordicts
@@ -2869,6 +2872,8 @@ class LazyStackedTensorDict(TensorDictBase):
         )
 
     def expand(self, *args: int, inplace: bool = False) -> T:
+        if inplace and self.is_locked:
+            raise RuntimeError(_LOCK_ERROR)
         if len(args) == 1 and isinstance(args[0], Sequence):
             shape = tuple(args[0])
         else:
